@@ -288,7 +288,10 @@ class Ctx:
         ev = dict(property_id=self.pid, tier=self.tier, seed=self.seed, level=self.level, coverage=cov,
                   assumptions=(assumptions or []) + self.assumptions_extra,
                   wall_s=round(time.time() - self.t0, 2), violations=nviol)
-        with open(os.path.join(VERIF, 'evidence', self.pid + '.json'), 'w') as f:
+        # runs against a scratch copy (VERIF_REPO=...) must not overwrite the evidence of /repo itself
+        evdir = os.path.join(VERIF, 'evidence') if REPO == '/repo' else os.path.join(VERIF, 'evidence', 'replay', 'scratch-runs')
+        os.makedirs(evdir, exist_ok=True)
+        with open(os.path.join(evdir, self.pid + '.json'), 'w') as f:
             json.dump(ev, f, indent=1, default=str)
         for l in out_lines:
             print(l)
